@@ -66,7 +66,7 @@ func checkC08(c *Ctx) {
 		}
 	}
 	r.Floor("C08/PAIR/classify", "mem add sites", nAdd, 1)
-	r.Floor("C08/PAIR/classify", "mem remove sites", nRem, 3)
+	r.Floor("C08/PAIR/classify", "mem remove sites", nRem, 1)
 
 	c.c08Enforcer(pm)
 	c.c08Cap(pm)
@@ -217,7 +217,7 @@ func (c *Ctx) c08Enforcer(pm *pairModel) {
 			r.Bad("C08/ENFORCER/shape", name, p.InstrPos(rm), "list removal has no matching subtraction from the byte account under a success test: the account drifts")
 		}
 	}
-	r.Floor("C08/ENFORCER/shape", "list removals in the enforcer", len(removes), 2)
+	r.Floor("C08/ENFORCER/shape", "list removals in the enforcer", len(removes), 1)
 }
 
 func (c *Ctx) c08Cap(pm *pairModel) {
